@@ -112,28 +112,35 @@ Definition all_done (st : cstate) : bool := forallb proc_done (c_procs st).
 (* ---------------------------------------------------------------------------------------------- *)
 (* the schedules used by the correspondence run (kind 8): a pseudo-random one, then every sink to its end *)
 
-(* sink s takes k steps in a row *)
+(* sink s takes k steps in a row (the steps of a sink that does not exist or has finished are no-ops: not executed) *)
 Fixpoint run_rep (shared : bool) (parts : list tpart) (n : nat) (st : cstate) (s k : nat) : outcome cstate :=
   match k with
   | O => Ok st
   | S k' =>
-    match cstep shared parts n st s with
-    | Ok st' => run_rep shared parts n st' s k'
-    | Err e => Err e
-    | Panic x => Panic x
+    match nth_error (c_procs st) s with
+    | None => Ok st
+    | Some p =>
+      if proc_done p then Ok st else
+      match cstep shared parts n st s with
+      | Ok st' => run_rep shared parts n st' s k'
+      | Err e => Err e
+      | Panic x => Panic x
+      end
     end
   end.
 
-Definition lcg_next (x : N) : N := (x * 1103515245 + 12345) mod 2147483648.
+(* a 16-bit linear congruential generator (cheap in binary arithmetic: the modulus is a mask) *)
+Definition lcg_next (x : N) : N := N.land (x * 25173 + 13849) 65535.
+Definition lcg_pick (x nprocs : N) : nat := N.to_nat ((N.shiftr x 7) mod nprocs).
 
-(* [fuel] picks: sink (x / 65536) mod nprocs takes [burst] steps *)
+(* [fuel] picks: sink (x >> 7) mod nprocs takes [burst] steps *)
 Fixpoint run_lcg (shared : bool) (parts : list tpart) (n : nat) (nprocs : N) (burst : nat) (fuel : nat) (x : N) (st : cstate)
   : outcome cstate :=
   match fuel with
   | O => Ok st
   | S f =>
     let x' := lcg_next x in
-    match run_rep shared parts n st (N.to_nat ((x' / 65536) mod nprocs)) burst with
+    match run_rep shared parts n st (lcg_pick x' nprocs) burst with
     | Ok st' => run_lcg shared parts n nprocs burst f x' st'
     | Err e => Err e
     | Panic p => Panic p
@@ -156,7 +163,7 @@ Fixpoint run_drain (shared : bool) (parts : list tpart) (n : nat) (st : cstate) 
 Fixpoint lcg_sched (nprocs : N) (burst : nat) (fuel : nat) (x : N) : list nat :=
   match fuel with
   | O => []
-  | S f => let x' := lcg_next x in repeat (N.to_nat ((x' / 65536) mod nprocs)) burst ++ lcg_sched nprocs burst f x'
+  | S f => let x' := lcg_next x in repeat (lcg_pick x' nprocs) burst ++ lcg_sched nprocs burst f x'
   end.
 
 Fixpoint drain_sched (s count k : nat) : list nat :=
@@ -244,9 +251,9 @@ Definition longest (progs : list (list (list bytes))) : nat := fold_right (fun p
 Definition conc_exec (shared : bool) (parts : list tpart) (n : nat) (progs : list (list (list bytes))) (seed : N) (burst : nat)
   : outcome cstate :=
   let nprocs := length progs in
-  let steps := (total_records progs * (n + 3))%nat in
-  match run_lcg shared parts n (N.of_nat nprocs) burst steps seed (c_init g_init n progs) with
-  | Ok st => run_drain shared parts n st O nprocs (longest progs * (n + 3))%nat
+  let steps := (total_records progs * (n + 4))%nat in
+  match run_lcg shared parts n (N.of_nat nprocs) burst (S (Nat.div steps burst)) seed (c_init g_init n progs) with
+  | Ok st => run_drain shared parts n st O nprocs (longest progs * (n + 4))%nat
   | Err e => Err e
   | Panic p => Panic p
   end.
